@@ -77,6 +77,9 @@ const LAYOUTS = {
   bmp: (lines) => ["// ñ€ header ‘x’"].concat(lines.map((l) => l.replace('/*@', "/* ñ€ */ /*@")))
 }
 const DIR = '/p/c11'
+// base names of the rewritten file ('' = the body's own short name); legal names that are awkward for
+// text-based frame handling
+const FILE_NAMES = ['', 'with space', 'paren(1)', 'dollar$&amp', 'dollar$$twice', "dollar$'quote", 'dollar$`tick', 'ñ€ü', 'colon:3:4', 'at x (y', 'dots.min.v2', '-dash', 'file:', '%41']
 function mkFile (name, body, layout, chained) {
   let lines = LAYOUTS[layout](body)
   const sites = {}
@@ -241,9 +244,9 @@ async function build (tier) {
   const leaves = []
   let stats = { states: 1, transitions: 0 }
   { // (P) single files: body x layout x chained x comments
-    const r = enumerate([{ name: 'body', symbols: ['A', 'B'], free: true }, { name: 'layout', symbols: Object.keys(LAYOUTS), free: true }, { name: 'chained', symbols: [false, true], free: true }, { name: 'comments', symbols: [false, true], free: true }], {})
+    const r = enumerate([{ name: 'body', symbols: ['A', 'B'], free: true }, { name: 'layout', symbols: Object.keys(LAYOUTS), free: true }, { name: 'chained', symbols: [false, true], free: true }, { name: 'comments', symbols: [false, true], free: true }, { name: 'fname', symbols: FILE_NAMES, free: true }], {})
     stats = addStats(stats, r.stats)
-    for (const l of r.leaves) leaves.push({ fam: 'file', key: ['file', l.pick.body, l.pick.layout, l.pick.chained, l.pick.comments].join('¦'), pick: l.pick })
+    for (const l of r.leaves) leaves.push({ fam: 'file', key: ['file', l.pick.body, l.pick.layout, l.pick.chained, l.pick.comments, l.pick.fname].join('¦'), pick: l.pick })
   }
   { // (H) histories of rewrite events on the caching rewriter
     const h = tier === 'thorough' ? 5 : 3
@@ -263,7 +266,7 @@ async function build (tier) {
 
 function requests (leaf) {
   if (leaf.fam === 'file') {
-    const f = mkFile(leaf.pick.body.toLowerCase(), leaf.pick.body === 'A' ? A_BODY : B_BODY, leaf.pick.layout, leaf.pick.chained)
+    const f = mkFile(leaf.pick.fname || leaf.pick.body.toLowerCase(), leaf.pick.body === 'A' ? A_BODY : B_BODY, leaf.pick.layout, leaf.pick.chained)
     return [{ config: Object.assign({}, C.FULL, { chainSourceMap: leaf.pick.chained, comments: leaf.pick.comments }), file: f.file, code: f.code }]
   }
   if (leaf.fam === 'history') return Array.from(new Set(leaf.hist.map((ver) => ver === 'A5' ? 'A1' : ver))).map((ver) => { const f = VERSIONS[ver](); return { config: cfgFor('c'), file: f.file, code: f.code, id: ver } })
@@ -297,7 +300,7 @@ async function check (leaf, resps, ctx) {
   const main = bridge.loadMain() // fresh module instances: the caches are part of the state
   if (leaf.fam === 'file') {
     const p = leaf.pick
-    const f = mkFile(p.body.toLowerCase(), p.body === 'A' ? A_BODY : B_BODY, p.layout, p.chained)
+    const f = mkFile(p.fname || p.body.toLowerCase(), p.body === 'A' ? A_BODY : B_BODY, p.layout, p.chained)
     const config = Object.assign({}, C.FULL, { chainSourceMap: p.chained, comments: p.comments })
     if (resps[0].status !== 'ok' || !resps[0].content) { v('setup', 'rewrite', 'file was not rewritten: ' + resps[0].status); return res }
     bridge.provide(config, f.code, f.file, resps[0])
